@@ -3,6 +3,7 @@ package main
 import (
 	"fmt"
 	"math/big"
+	"regexp"
 	"strings"
 )
 
@@ -22,6 +23,7 @@ type sumCtx struct {
 	ph     string
 	depth  int
 	params []string // actual terms
+	qstart int      // quantifier counter when the sum was opened
 }
 
 func (c *sumCtx) param(actual string) string {
@@ -34,6 +36,48 @@ func (c *sumCtx) param(actual string) string {
 	return fmt.Sprintf("$P%d_%d$", c.depth, len(c.params)-1)
 }
 
+var qvarRe = regexp.MustCompile(`!q(\d+)`)
+
+// unlift substitutes this level's parameter placeholders in t by their actual terms.
+func (c *sumCtx) unlift(t string) string {
+	for i := len(c.params) - 1; i >= 0; i-- {
+		t = strings.ReplaceAll(t, fmt.Sprintf("$P%d_%d$", c.depth, i), c.params[i])
+	}
+	return t
+}
+
+// lift replaces a scalar value that does not depend on the sum's bound variable by a formal
+// parameter of the sum function (lambda lifting), so that the function symbol does not depend
+// on how the free value happens to be written.
+func (c *sumCtx) lift(e *SpecEnv, v *SVal) *SVal {
+	if v == nil || v.LV || v.F != nil || v.Term == "" || v.Loc != nil || v.Fn != nil {
+		return v
+	}
+	switch kindOf(v.T) {
+	case KInt, KSpecInt, KPtr, KMap, KIface:
+	default:
+		return v
+	}
+	t := v.Term
+	if _, lit := isIntLit(t); lit {
+		return v
+	}
+	if strings.Contains(t, c.ph) || strings.Contains(t, fmt.Sprintf("$P%d_", c.depth)) {
+		return v
+	}
+	// variables bound by a quantifier opened inside the sum body cannot be lifted out of it
+	for _, m := range qvarRe.FindAllStringSubmatch(t, -1) {
+		var n int
+		fmt.Sscan(m[1], &n)
+		if n > c.qstart {
+			return v
+		}
+	}
+	nv := *v
+	nv.Term = c.param(t)
+	return &nv
+}
+
 func hasBound(s string) bool {
 	return strings.Contains(s, "$SUMVAR") || strings.Contains(s, "$P") || strings.Contains(s, "!q")
 }
@@ -44,7 +88,7 @@ func (e *SpecEnv) sum(args []*Node) *SVal {
 		sfail("sum(k, lo, hi, term)")
 	}
 	lo, hi := e.intTerm(args[1]), e.intTerm(args[2])
-	ctx := &sumCtx{ph: fmt.Sprintf("$SUMVAR%d$", e.sumDepth), depth: e.sumDepth}
+	ctx := &sumCtx{ph: fmt.Sprintf("$SUMVAR%d$", e.sumDepth), depth: e.sumDepth, qstart: x.nFrames}
 	n := e.with(args[0].Name, intVal(ctx.ph))
 	n.sumCtx = ctx
 	n.sumDepth = e.sumDepth + 1
@@ -52,13 +96,29 @@ func (e *SpecEnv) sum(args []*Node) *SVal {
 	if k := kindOf(tv.T); k != KInt && k != KSpecInt {
 		sfail("sum term must be an integer")
 	}
-	body := tv.Term
-	np := len(ctx.params)
-	// the key is independent of the nesting depth at which the sum is met
-	key := strings.ReplaceAll(lo+"|"+body, ctx.ph, "$V$")
-	for i := np - 1; i >= 0; i-- {
-		key = strings.ReplaceAll(key, fmt.Sprintf("$P%d_%d$", ctx.depth, i), fmt.Sprintf("$A%d$", i))
-	}
+	nonnegByNode := n.nonNegNode(args[3])
+	// canonical form: the bound variable is $V$, parameters are $A0$, $A1$, ... in order of
+	// first occurrence in the body; parameters that do not occur are dropped. The function
+	// symbol then depends only on the shape of the term, not on nesting depth or on the order
+	// in which sub-expressions were evaluated.
+	pre := regexp.MustCompile(fmt.Sprintf(`\$P%d_(\d+)\$`, ctx.depth))
+	var actuals []string
+	order := map[string]int{}
+	body := pre.ReplaceAllStringFunc(tv.Term, func(m string) string {
+		j, ok := order[m]
+		if !ok {
+			var idx int
+			fmt.Sscanf(m, fmt.Sprintf("$P%d_%%d$", ctx.depth), &idx)
+			j = len(actuals)
+			order[m] = j
+			actuals = append(actuals, ctx.params[idx])
+		}
+		return fmt.Sprintf("$A%d$", j)
+	})
+	body = strings.ReplaceAll(body, ctx.ph, "$V$")
+	ctx.params = actuals
+	np := len(actuals)
+	key := lo + "|" + body
 	s, ok := x.sumFns[key]
 	nonneg := false
 	if kindOf(tv.T) == KInt {
@@ -67,7 +127,7 @@ func (e *SpecEnv) sum(args []*Node) *SVal {
 		}
 	}
 	if !nonneg {
-		nonneg = n.nonNegNode(args[3])
+		nonneg = nonnegByNode
 	}
 	// formal parameter names
 	var formals, fdecl []string
@@ -77,9 +137,9 @@ func (e *SpecEnv) sum(args []*Node) *SVal {
 		fdecl = append(fdecl, "("+f+" Int)")
 	}
 	subst := func(t string, actuals []string, v string) string {
-		t = strings.ReplaceAll(t, ctx.ph, v)
+		t = strings.ReplaceAll(t, "$V$", v)
 		for i := np - 1; i >= 0; i-- {
-			t = strings.ReplaceAll(t, fmt.Sprintf("$P%d_%d$", ctx.depth, i), actuals[i])
+			t = strings.ReplaceAll(t, fmt.Sprintf("$A%d$", i), actuals[i])
 		}
 		return t
 	}
@@ -153,12 +213,19 @@ func (e *SpecEnv) nonNegNode(n *Node) (ok bool) {
 			switch name {
 			case "len", "cap":
 				return true
-			case "min", "max":
+			case "min":
 				return e.nonNegNode(n.Args[1]) && e.nonNegNode(n.Args[2])
+			case "max":
+				return e.nonNegNode(n.Args[1]) || e.nonNegNode(n.Args[2])
+			case "ite":
+				return len(n.Args) == 4 && e.nonNegNode(n.Args[2]) && e.nonNegNode(n.Args[3])
 			case "sum":
 				if len(n.Args) == 5 {
 					return e.with(n.Args[1].Name, intVal("0")).nonNegNode(n.Args[4])
 				}
+			}
+			if s := e.findSpec(name); s != nil && s.Opaque {
+				return s.NonNeg
 			}
 			if s := e.findSpec(name); s != nil && len(s.Params) == len(n.Args)-1 && e.depth < 20 {
 				m := *e
